@@ -4,19 +4,9 @@
 //! exit:  0 property held on everything explored, 1 violation (VIOLATION line on stdout),
 //!        2 infrastructure / generator-health trouble (never reported as a violation)
 
-mod ast;
-mod astops;
-mod engine;
-mod findings;
-mod fsmodel;
-mod gen;
-mod isolate;
-mod props;
-mod refmatch;
-mod refrules;
-mod rxgen;
 
-use engine::Tier;
+use waxverif::engine::Tier;
+use waxverif::{engine, props};
 
 fn main() {
     let args: Vec<String> = std::env::args().skip(1).collect();
